@@ -310,7 +310,15 @@ pub fn run_c16(ctx: &Ctx) -> Report {
         let mut cv = Conv::default();
         // half of the histories use statements with EQUAL parameter counts: foreign types then fit
         let counts = if rng.bool() { let c = 1 + rng.below(3) as usize; [c, c, c] } else { [1usize, 2 + rng.below(3) as usize, 9 + rng.below(9) as usize] };
-        let ids = [11u32, 12, 13];
+        let ids: [u32; 3] = if rng.chance(1, 4) {
+            let mut pool = vec![0u32, 1, u32::MAX, u32::MAX - 1, 0x8000_0000, 0x7FFF_FFFF];
+            let a = pool.remove(rng.usize(pool.len()));
+            let b = pool.remove(rng.usize(pool.len()));
+            let c = pool.remove(rng.usize(pool.len()));
+            [a, b, c]
+        } else {
+            [11u32, 12, 13]
+        };
         let mut bound: [Option<Vec<(u8, bool)>>; 3] = [None, None, None];
         for k in 0..3 {
             cv.push(MCmd::Prepare(format!("st{}", k).into_bytes()), Some(Script::PrepOk { id: ids[k], params: param_cols(counts[k]), cols: vec![] }));
@@ -419,7 +427,18 @@ pub fn run_c17(ctx: &Ctx) -> Report {
     let r = par_cases(ctx, "C17", "hist", n, |rng, i, rep| {
         let mut cv = Conv::default();
         let counts = [1usize, 3, 4];
-        let ids = [21u32, 22, 23];
+        // statement ids are the shim's choice: small ones, or the edges of the 32-bit range in any
+        // order of preparation (an id must never be mistaken for "the last one" or "none")
+        let ids: [u32; 3] = if rng.chance(1, 3) {
+            let mut pool = vec![0u32, 1, u32::MAX, u32::MAX - 1, 0x8000_0000, 0x7FFF_FFFF, 0x0100_0000, 0xFFFF];
+            let a = pool.remove(rng.usize(pool.len()));
+            let b = pool.remove(rng.usize(pool.len()));
+            let c = pool.remove(rng.usize(pool.len()));
+            rep.counters.inc("histories_with_edge_statement_ids");
+            [a, b, c]
+        } else {
+            [21u32, 22, 23]
+        };
         for k in 0..3 {
             cv.push(MCmd::Prepare(format!("st{}", k).into_bytes()), Some(Script::PrepOk { id: ids[k], params: param_cols(counts[k]), cols: vec![] }));
         }
